@@ -879,6 +879,7 @@ pub fn run(which: &str, args: &Args, out: &mut dyn Write) -> Stats {
     let weights: [u64; 4] = match which {
         "C01" => [5, 2, 1, 2],
         "C09" => [3, 4, 1, 2],
+        "C18" => [3, 2, 1, 4],
         _ => [3, 1, 5, 1],
     };
     for _ in 0..args.n {
